@@ -21,12 +21,18 @@ class Returned(Exception):
         self.value = value
 
 
+class Broke(Exception):
+    pass
+
+
 def sign(x):
     return (x > 0) - (x < 0)
 
 
 BUILTINS = {'sign': sign, 'abs': abs, 'len': len, 'min': min, 'max': max, 'int': int, 'float': float, 'bool': bool, 'str': str,
-            'np.sign': sign, 'numpy.sign': sign, 'isinstance': isinstance}
+            'np.sign': sign, 'numpy.sign': sign, 'isinstance': isinstance,
+            'set': set, 'enumerate': lambda *a, **k: list(enumerate(*a, **k)), 'tuple': tuple, 'list': list, 'dict': dict,
+            'copy.copy': lambda x: x.copy() if hasattr(x, 'copy') else x}
 
 CMP = {ast.Eq: lambda a, b: a == b, ast.NotEq: lambda a, b: a != b, ast.Lt: lambda a, b: a < b, ast.LtE: lambda a, b: a <= b,
        ast.Gt: lambda a, b: a > b, ast.GtE: lambda a, b: a >= b, ast.In: lambda a, b: a in b, ast.NotIn: lambda a, b: a not in b,
@@ -98,7 +104,8 @@ def ev(node, env):
         return ev(node.value, env)[ev(node.slice, env)]
     if isinstance(node, ast.IfExp):
         return ev(node.body, env) if ev(node.test, env) else ev(node.orelse, env)
-    if isinstance(node, ast.Call) and isinstance(node.func, ast.Attribute) and node.func.attr in ('get', 'startswith', 'endswith', 'keys', 'values'):
+    if isinstance(node, ast.Call) and isinstance(node.func, ast.Attribute) and node.func.attr in ('get', 'startswith', 'endswith', 'keys', 'values', 'items', 'isdigit', 'copy') \
+            and u(node.func) not in env and u(node.func) not in BUILTINS:
         recv = ev(node.func.value, env)
         if isinstance(recv, (dict, str)):
             return getattr(recv, node.func.attr)(*[ev(a, env) for a in node.args])
@@ -134,6 +141,37 @@ def run_stmts(stmts, env):
                 env['{}.{}'.format(dst, kw.arg)] = ev(kw.value, env)
         elif isinstance(st, ast.Assign) and len(st.targets) == 1 and isinstance(st.targets[0], ast.Name):
             env[st.targets[0].id] = ev(st.value, env)
+        elif isinstance(st, ast.Assign) and len(st.targets) == 1 and isinstance(st.targets[0], ast.Tuple) \
+                and all(isinstance(e, ast.Name) for e in st.targets[0].elts):
+            vals = tuple(ev(st.value, env))
+            if len(vals) != len(st.targets[0].elts):
+                raise Unsupported('unpacking arity')
+            for e, v in zip(st.targets[0].elts, vals):
+                env[e.id] = v
+        elif isinstance(st, ast.Assign) and len(st.targets) == 1 and isinstance(st.targets[0], ast.Subscript) \
+                and isinstance(st.targets[0].value, ast.Name) and isinstance(env.get(st.targets[0].value.id), dict):
+            env[st.targets[0].value.id][ev(st.targets[0].slice, env)] = ev(st.value, env)
+        elif isinstance(st, ast.For) and isinstance(st.target, (ast.Name, ast.Tuple)):
+            # finite iteration over a small concrete value (string / tuple / list), with break / else
+            seq = list(ev(st.iter, env))
+            if len(seq) > 64:
+                raise Unsupported('long iteration')
+            broke = False
+            for item in seq:
+                if isinstance(st.target, ast.Name):
+                    env[st.target.id] = item
+                else:
+                    for e, v in zip(st.target.elts, item):
+                        env[e.id] = v
+                try:
+                    run_stmts(st.body, env)
+                except Broke:
+                    broke = True
+                    break
+            if not broke:
+                run_stmts(st.orelse, env)
+        elif isinstance(st, ast.Break):
+            raise Broke()
         elif isinstance(st, ast.Pass):
             continue
         elif isinstance(st, ast.Raise):
